@@ -220,6 +220,17 @@ func (fg *FuncGen) frameCheck(p *Ptr, pos token.Pos, what string) {
 		// writes permitted by the assigns clause: the root must be one of the listed parameter objects
 		var alts []string
 		for _, a := range fg.c.Assigns {
+			if strings.HasPrefix(a, "elems:") {
+				// elems:<expr>: the elements of a slice reachable from a parameter may be written
+				if e, err := ParseExpr(a[6:]); err == nil {
+					env := fg.funcEnv(fg.st, State{}, nil)
+					t := env.Tr(e)
+					if t.Sort == "Slice" {
+						alts = append(alts, "(= "+root+" (sref "+t.S+"))")
+					}
+				}
+				continue
+			}
 			name := strings.TrimPrefix(a, "*")
 			if i := strings.Index(name, "."); i > 0 {
 				name = name[:i]
